@@ -1,3 +1,5 @@
 pub mod c04;
 pub mod c05;
+pub mod c08;
+pub mod c09;
 pub mod libprops;
